@@ -67,12 +67,17 @@ CLAIMS = {
               "the executable certificates Cert.structural and Cert.total on the real table (also for the layout automaton). Tie A: "
               "outcome class (ok/err/panic/timeout) of the real parsers under catch_unwind + watchdog vs the model on arbitrary "
               "Unicode (empty, multi-byte, control characters, long) with default and three adversarial lexers; Tie B: certificates "
-              "executed on every real table. NOT proved: termination (model takes fuel; hangs are decided by the watchdog; known "
+              "executed on every real table. C15_lr_terminates: with non-empty tokens (NonEmptyTokens) and the executable certificate "
+              "Cert.terminating (used productions: nullable closure, symbol ranking along unit derivations, state ranking along gotos on "
+              "nullable nonterminals; executed on every real table; the F24 table fails it: C15_counterexample_cyclic_grammar) the LR "
+              "parse - whitespace skipping or Layout rule incl. the nested layout parser, partial on/off - does not run out of fuel "
+              "for any fuel >= Cert.termBound (linear in the input length). NOT proved: termination with user lexers and of the GLR "
+              "engine (hangs there are decided by the watchdog; known "
               "findings F14: terminals matching the empty string, F24: cyclic grammars resolved by priorities); GLR with user-supplied "
               "lexers (oracle on the real parser only)."),
         design_ref="5/C15",
         note=TRUST + "; byte/char-boundary slicing is by construction of the recognizers (they return a prefix &str) and exercised by multi-byte inputs only",
-        technique="Lean 4 invariant proof (no panic site reachable) + verified table certificates + differential outcome classes under catch_unwind/watchdog"),
+        technique="Lean 4 invariant proofs (no panic site reachable; termination with an explicit fuel bound) + verified table certificates + differential outcome classes under catch_unwind/watchdog"),
     "C17": dict(
         category="proof",
         text=("Theorems C17_cli_maps_to_settings (for every environment and every Cli value the builder calls of rcomp's main, transcribed "
@@ -125,16 +130,22 @@ CLAIMS = {
         technique="Lean 4 proof over all sorted terminal lists and matching functions + per-state certificate + documented-rule oracle"),
     "C07": dict(
         category="proof",
-        text=("PARTIAL. Proved: C07_lr_tree_is_the_unique_derivation (on a certified deterministic table the tree the LR parser returns "
-              "is the only derivation tree of the input) and C07_single_solution_is_lr_tree (a forest containing exactly the derivation "
-              "trees, each once, then has exactly one solution, the LR tree), on top of C01 (LR accepts exactly the sentences) and C03 "
-              "(the forest API enumerates each tree of the forest once). NOT proved: that the GSS engine puts exactly the derivation trees "
-              "into the forest, and span equality. Decided on every generated input by comparing the two real parsers built from the "
-              "same grammar: Ok/Err, solutions() = 1, node-by-node equality of production, token kind/span/value and nonterminal span "
-              "up to elided trailing empty children."),
-        design_ref="5/C07",
-        note=TRUST + "; GLR engine sampled; scope = grammars whose LALR_PAGER items pass Table.rawDeterministic",
-        technique="Lean 4 proof (uniqueness of the LR tree) + differential comparison of the real LR and GLR parsers"),
+        text=("Proved over the executable models of BOTH engines, for one grammar g with two real tables (t_lr passing certC01, the "
+              "right-nulled table passing Cert.glr and Cert.completeRN - all executed on every in-scope pair of every run) and the "
+              "token-level lexer hypothesis LexDet: C07_glr_accepts_iff_lr_accepts (a GLR result with a tree implies the LR parser "
+              "accepts; if the LR parser accepts, GLR returns no error and every uncut result returns a tree), "
+              "C07_glr_trees_are_elisions_of_the_lr_tree (every tree any index of the GLR forest returns equals the LR tree modulo "
+              "elided empty-yield tails), C07_glr_trees_share_the_lr_tree, C07_lr_tree_is_the_unique_derivation, "
+              "C07_single_solution_is_lr_tree. PARTIAL: 'exactly one solution' as a COUNT needs no-duplicates of the engine (proved "
+              "only from PossFacts, C03_engine_no_duplicates_from_poss_facts), span equality, Layout grammars (certC01 does not cover "
+              "the layout automaton) and termination are decided by comparing the two real parsers on every generated input: Ok/Err, "
+              "solutions() = 1, node-by-node equality of production, token kind/span/value and nonterminal span up to elided trailing "
+              "empty children, incl. Layout grammars, parser-object reuse and parse_file. Known findings C07-N1 (token/layout "
+              "collision: outside LexDet) and C07-N2 (priority on an EMPTY production evicts a right-nulled entry: exactly where "
+              "Cert.completeRN fails) are recorded with witnesses."),
+        design_ref="0/C07, notes/Glr.md",
+        note=TRUST + "; scope = grammars whose LALR_PAGER items pass Table.rawDeterministic",
+        technique="Lean 4 proof (LR = GLR modulo elision from engine soundness + completeness + uniqueness of the derivation) + verified table certificates + differential comparison of the real LR and GLR parsers"),
     "C09": dict(
         category="proof",
         text=("Lean model Front.build of grammar/builder.rs over the File AST (all of try_from_file: terminals, productions, sugar "
